@@ -32,7 +32,7 @@ ASSUMPTIONS = ["objective functions are deterministic, finite (no NaN/inf)", "ge
                "only `True` returned by on_progress stops a run"]
 TIERS = {
     "quick": {"runs": 40000, "block": 500, "budget_s": 75},
-    "thorough": {"runs": 2000000, "block": 2000, "budget_s": 900},
+    "thorough": {"runs": 20000000, "block": 4000, "budget_s": 900},
 }
 
 RNG_MODULES = ["solvor.anneal", "solvor.tabu", "solvor.lns", "solvor.genetic", "solvor.differential_evolution",
